@@ -267,18 +267,21 @@ structure RvSt where
   nread : Nat
 
 /-- `readv` with a stream reader. `some e` = returned early with `e`. -/
-def readvLoop (enosys : Bool) (iovs iovsStop : Nat) : Nat → Nat → RvSt → RvSt × Option Err
+def readvLoop (enosys : Bool) (snap : Option Mem) (iovs iovsStop : Nat) : Nat → Nat → RvSt → RvSt × Option Err
   | 0, _, s => (s, none)
   | fuel + 1, pos, s =>
     if pos ≥ iovsStop then (s, none) else
     -- le.Uint32(iovsBuf[iovsPos:]) and le.Uint32(iovsBuf[iovsPos+4:])
     if pos + 4 > iovsStop then (s, some .panic) else
-    let offset := le32 s.m (iovs + pos)
+    -- the entries are read from the live memory (as-is: `snap = none`), or from a copy of the iovec array taken
+    -- when the call starts (repaired variant, F62)
+    let em := snap.getD s.m
+    let offset := le32 em (iovs + pos)
     let p4 := w32 (pos + 4)
     if p4 > iovsStop ∨ p4 + 4 > iovsStop then (s, some .panic) else
-    let l := le32 s.m (iovs + p4)
+    let l := le32 em (iovs + p4)
     let next := w32 (pos + 8)
-    if l = 0 then readvLoop enosys iovs iovsStop fuel next s else
+    if l = 0 then readvLoop enosys snap iovs iovsStop fuel next s else
     if !s.m.has offset l then (s, some efault) else
     let s := { s with acc := (offset, l) :: s.acc }
     if enosys then (s, some ebadf) else
@@ -286,7 +289,7 @@ def readvLoop (enosys : Bool) (iovs iovsStop : Nat) : Nat → Nat → RvSt → R
     let bs := s.src.take k
     let s := if k = 0 then s else { s with m := s.m.write offset bs, ws := Wr.bytes offset bs :: s.ws }
     let s := { s with src := s.src.drop k, nread := w32 (s.nread + k) }
-    if k < l then (s, none) else readvLoop enosys iovs iovsStop fuel next s
+    if k < l then (s, none) else readvLoop enosys snap iovs iovsStop fuel next s
 
 /-- all iovec buffers named by the first `cnt` entries that are readable (spec side, over ℕ) -/
 def iovRegions (m : Mem) (iovs : Nat) : Nat → Nat → List (Nat × Nat)
@@ -295,36 +298,46 @@ def iovRegions (m : Mem) (iovs : Nat) : Nat → Nat → List (Nat × Nat)
     if iovs + 8 * i + 8 ≤ m.size then (le32 m (iovs + 8 * i), le32 m (iovs + 8 * i + 4)) :: iovRegions m iovs cnt (i + 1)
     else []
 
-def fdReadCommon (rd : Reader) (m : Mem) (iovs iovsCount res : Nat) : Res :=
+/-- some readable, non-empty iovec buffer overlaps the iovec array itself: what is read into it may change the
+entries that `readv` reads next (F62) -/
+def iovAliased (m : Mem) (iovs iovsStop : Nat) : Bool :=
+  (iovRegions m iovs (min (iovsStop / 8) (m.size / 8 + 1)) 0).any (fun r =>
+    m.has r.1 r.2 && decide (0 < r.2) && decide (r.1 < iovs + iovsStop) && decide (iovs < r.1 + r.2))
+
+/-- `fixedRead` = the repaired `readv` (F62): the iovec array is copied when the call starts -/
+def fdReadCommon (fixedRead : Bool) (rd : Reader) (m : Mem) (iovs iovsCount res : Nat) : Res :=
   let iovsStop := w32 (iovsCount * 8)   -- iovsCount << 3
   if !m.has iovs iovsStop then { err := efault } else
   let acc := [(iovs, iovsStop)]
   match rd with
   | .unknown =>
+    -- as-is, with host-chosen data read into a buffer that covers later entries: the next reads go wherever that
+    -- data says (inside the memory)
+    if !fixedRead && iovAliased m iovs iovsStop then { err := .any, acc := acc, writes := [Wr.region 0 m.size] } else
     { err := .any, acc := acc,
       writes := (iovRegions m iovs (min (iovsStop / 8) (m.size / 8 + 1)) 0).map (fun r => Wr.region r.1 (min r.2 m.size)) ++ [Wr.region res 4] }
   | _ =>
     let (src, en) := match rd with
       | .stream s => (s, false)
       | _ => ([], true)
-    match readvLoop en iovs iovsStop (iovsStop / 8 + 1) 0 { m := m, ws := [], acc := acc, src := src, nread := 0 } with
+    match readvLoop en (if fixedRead then some m else none) iovs iovsStop (iovsStop / 8 + 1) 0 { m := m, ws := [], acc := acc, src := src, nread := 0 } with
     | (s, some e) => { err := e, acc := s.acc.reverse, writes := s.ws.reverse }
     | (s, none) =>
       if !s.m.has res 4 then { err := efault, acc := s.acc.reverse, writes := s.ws.reverse }
       else { err := .errno 0, acc := ((res, 4) :: s.acc).reverse, writes := (Wr.bytes res (bytesLE 4 s.nread) :: s.ws).reverse }
 
-def fdRead (h : Host) (fds : Fds) (m : Mem) (fd iovs iovsCount res : Nat) : Res :=
+def fdRead (fixedRead : Bool) (h : Host) (fds : Fds) (m : Mem) (fd iovs iovsCount res : Nat) : Res :=
   match lookupFd fds fd with
   | none => { err := ebadf }
-  | some .stdin => fdReadCommon (.stream h.stdin) m iovs iovsCount res
-  | some .stdout | some .stderr => fdReadCommon .enosys m iovs iovsCount res
-  | some _ => fdReadCommon .unknown m iovs iovsCount res
+  | some .stdin => fdReadCommon fixedRead (.stream h.stdin) m iovs iovsCount res
+  | some .stdout | some .stderr => fdReadCommon fixedRead .enosys m iovs iovsCount res
+  | some _ => fdReadCommon fixedRead .unknown m iovs iovsCount res
 
-def fdPread (fds : Fds) (m : Mem) (fd iovs iovsCount res : Nat) : Res :=
+def fdPread (fixedRead : Bool) (fds : Fds) (m : Mem) (fd iovs iovsCount res : Nat) : Res :=
   match lookupFd fds fd with
   | none => { err := ebadf }
-  | some .stdin | some .stdout | some .stderr => fdReadCommon .enosys m iovs iovsCount res
-  | some _ => fdReadCommon .unknown m iovs iovsCount res
+  | some .stdin | some .stdout | some .stderr => fdReadCommon fixedRead .enosys m iovs iovsCount res
+  | some _ => fdReadCommon fixedRead .unknown m iovs iovsCount res
 
 inductive Writer where
   | accept      -- writes everything (stdout/stderr on an io.Writer)
